@@ -47,6 +47,26 @@ def nocomma_rel(rng):
     return rng.choice(["kind(k<n)", "k", "2*k", "kind(k>n)", "selected_int_kind(9)"])
 
 
+def lit_selector(rng, hostile=True):
+    """a kind / len selector value that contains a character literal (no blanks outside, no commas)"""
+    body = rng.choice(["x", "res", "a<b>&", "<u>k</u>", "C:\\a\\b\\c", "it's", "a  b", "\\\\", "q\"r"]) if hostile \
+        else rng.choice(["x", "res", "abc"])
+    return lit(rng, body=body)
+
+
+def ret_type(rng, mode):
+    """canonical text of a function result type; a third of them carry a literal in the selector"""
+    r = rng.random()
+    hostile = mode == "all"
+    if r < 0.2:
+        return f"integer(kind=kind({lit_selector(rng, hostile)}))"
+    if r < 0.4:
+        return f"character(len=len({lit_selector(rng, hostile)}))"
+    if r < 0.5:
+        return f"character(len=len({lit_selector(rng, hostile)})+len({lit_selector(rng, hostile)}))"
+    return f"integer(kind={nocomma_rel(rng) if mode == 'all' else 'k'})"
+
+
 def init_expr(rng):
     """(text, has_literal)"""
     r = rng.random()
@@ -156,8 +176,7 @@ def gen_project(rng, mode=None):
         ret = None
         if kind == "function":
             uid[0] += 1
-            ret = {"name": f"r{uid[0]}", "kind": nocomma_rel(rng) if mode == "all" else "k",
-                   "prefix": rng.random() < 0.5}
+            ret = {"name": f"r{uid[0]}", "typ": ret_type(rng, mode), "prefix": rng.random() < 0.5}
         procs.append({"name": f"pr{j}", "kind": kind, "args": args, "bind": bind, "ret": ret,
                       "locals": [nv("local") for _ in range(rng.choice([0, 1]))],
                       "namelist": j == 0})
@@ -166,7 +185,8 @@ def gen_project(rng, mode=None):
         uid[0] += 1
         form = rng.choice(["kind", "strlen", "dimattr", "dim"]) if mode == "all" else "plain"
         iface = {"name": f"ifn{uid[0]}", "arg": nv("arg"), "abstract": rng.random() < 0.5, "retform": form,
-                 "retkind": nocomma_rel(rng) if form == "kind" else None,
+                 "retkind": (rng.choice([nocomma_rel(rng), f"kind({lit_selector(rng)})"]) if form == "kind" else None),
+                 "prefix": form == "kind" and rng.random() < 0.5,
                  "retlen": rng.choice(["n", "kind(k<n)", "kind(k>n)"]) if form == "strlen" else None,
                  "retattr": f"dimension({rel_expr(rng)})" if form == "dimattr" else None,
                  "retdim": f"({rel_expr(rng)})" if form == "dim" else None}
@@ -239,10 +259,12 @@ def render_project(p, control=False):
     if p["iface"]:
         f = p["iface"]
         L.append("  abstract interface" if f["abstract"] else "  interface")
-        L.append(T(f"    function {f['name']}({f['arg']['name']}) result(res)"))
+        pre = f"integer(kind={f['retkind']}) " if f.get("prefix") else ""
+        L.append(T(f"    {pre}function {f['name']}({f['arg']['name']}) result(res)"))
         L.append("      import :: k, n")
         L.append(T(render_var(f["arg"], "      ")))
-        L.append(T("      " + iface_ret_decl(f)))
+        if not f.get("prefix"):
+            L.append(T("      " + iface_ret_decl(f)))
         L.append(f"    end function {f['name']}")
         L.append("  end interface")
     L.append("contains")
@@ -251,7 +273,7 @@ def render_project(p, control=False):
         bind = f" bind(c, name={pr['bind']})" if pr["bind"] else ""
         if pr["kind"] == "function":
             r = pr["ret"]
-            prefix = f"integer(kind={r['kind']}) " if r["prefix"] else ""
+            prefix = f"{r['typ']} " if r["prefix"] else ""
             L.append(T(f"  {prefix}function {pr['name']}({arglist}) result({r['name']}){bind}"))
         else:
             L.append(T(f"  subroutine {pr['name']}({arglist}){bind}"))
@@ -259,7 +281,7 @@ def render_project(p, control=False):
         for a in pr["args"]:
             L.append(T(render_var(a, "    ")))
         if pr["kind"] == "function" and not pr["ret"]["prefix"]:
-            L.append(T(f"    integer(kind={pr['ret']['kind']}) :: {pr['ret']['name']}"))
+            L.append(T(f"    {pr['ret']['typ']} :: {pr['ret']['name']}"))
         for d in pr["locals"]:
             L.append(T(render_var(d, "    ")))
         if pr["namelist"]:
